@@ -578,6 +578,16 @@ def rule_merge_other(check, rule):
             continue
         seen.add(key)
         st = site_of(init, init.node)
+        # the base initialiser installs the default getter and a fresh cache: it has to run before _merge_other replaces the getter
+        # with the combination of both translators' getters, or the combination is overwritten
+        order = [('base-init' if (e.op == '.__init__' and e.target[0] == 'C' and e.target[1] == 'super') else str(e.op).split('.')[-1])
+                 for e in p.effects if e.kind == 'call']
+        if isn is True and 'base-init' in order and '_merge_other' in order and order.index('base-init') > order.index('_merge_other'):
+            check.violation(rule, st, 'the base class initialiser runs after _merge_other: it installs the default getter over the combined getter '
+                            '_merge_other has just built, and the bound copy of a start=/end= form stacked on another modifier loses the inner '
+                            'selection', key=key + '|base-init-order',
+                            witness="class K: m = kwoargs(start='c')(posoargs('a')(lambda self, a, b, c='dc': 0)); K().m advertises (a, /, b, c='dc')")
+            continue
         if isn is True:
             if '_merge_other' in calls and '_prepare' in calls and calls.index('_merge_other') < calls.index('_prepare'):
                 check.holds(rule, st, 'wrapping another translator: _merge_other(func) runs before _prepare()', key=key)
@@ -613,8 +623,12 @@ def rule_annotate_after_modifier(check, rule):
         loops = [e for e in p.effects if e.kind == 'loop']
         unwrap = [e for e in loops if e.extra == 'while']
         st = site_of(fi, fi.node)
-        if key not in seen:
-            seen.add(key)
+        # every returning path is judged (a path on which the re-preparation is skipped under some condition is the defect);
+        # paths with the same outcome share an obligation
+        shape = (tuple(sorted(set(str(e.op) for e in p.effects if e.kind == 'store_attr'))),
+                 tuple(any(str(x.op).endswith('._prepare') for sp in e.sub for x in sp.effects if x.kind == 'call') for e in loops))
+        if (key, shape) not in seen:
+            seen.add((key, shape))
             ok_unwrap = False
             cursor = None
             for e in unwrap:
